@@ -211,7 +211,8 @@ def make_behaviour(spec, rng):
                      latency=float(pick(spec.get('latency'), 0.0)),
                      orphan_exit=bool(spec.get('orphan_exit', False)),
                      writer=spec.get('writer'),
-                     label=spec.get('label', 'obedient'))
+                     label=spec.get('label', 'obedient'),
+                     reaps_children=bool(spec.get('reaps_children', True)))
 
 
 IMMORTAL = {'label': 'settled', 'delay': [0.0]}
@@ -454,12 +455,15 @@ class World(object):
         world = self
 
         def counted_manage_watchers():
+            # counted before the call: a death inside the synchronous part
+            # of this check must not count it as 'a check after the death'
+            world.checks_started += 1
             try:
                 f = orig()
             except ConflictError:
+                world.checks_started -= 1
                 world.checks_refused += 1
                 raise
-            world.checks_started += 1
             world.sim.rec('check_start')
 
             def _done(_f):
